@@ -220,7 +220,7 @@ def generate(rng, tier):
         lname = LAYOUTS[i % 5] if i < 50 else rng.choice(LAYOUTS)
         cases.append(gen_chart(rng, lname, rng.random() < 0.55))
     if tier != "quick":
-        for nb in (1294, 1295):
+        for nb in (300, 1295):                           # many tempo points (quadratic in Coq); 1295 trips the writer's assert
             cases.append({"layout": "BME", "exact": True, "dflt": "01", "lnobj": "ZZ", "hits": [[[250, 1], 0, ""]], "holds": [],
                           "bpms": [[[2000 * k, 1], [120, 1], 4] for k in range(nb)], "samples": [], "title": "many", "title_bytes": True,
                           "artist": "x", "version": "1", "misc": []})
